@@ -619,3 +619,8 @@ Definition corr_final (d : yv) : outcome unit :=
 Definition load_corr : bool -> yv -> outcome (list N) := load_with corr_stage2 corr_final.
 
 End Loader.
+
+(* the three single-document loaders under one name *)
+Inductive kind := KRule | KCorr | KFilter.
+Definition load (L : lib) (k : kind) : bool -> yv -> outcome (list N) :=
+  match k with KRule => load_rule L | KCorr => load_corr L | KFilter => load_filter L end.
